@@ -39,7 +39,7 @@ def run(tier, selftest):
         vlib.tool_error("vacuity: no sort transition changes the written order")
     s1 = c15.replay_cases(binp, cases, rep, "sort")
 
-    traces, steps, init = (60, 60, 14) if thorough else (16, 30, 10)
+    traces, steps, init = (400, 100, 20) if thorough else (16, 30, 10)
     tp = os.path.join(vlib.scratch(), "sort_trace.ndjson")
     rc, lines, err = vlib.run_harness(binp, ["placement-record", "--seed", vlib.seed() + 1000, "--traces", traces, "--steps", steps,
                                              "--init", init, "--extras", 1, "--sortprob", 20, "--out", tp], timeout=900)
